@@ -51,6 +51,9 @@ struct SentPacket {
     amount: u128,
     sender: String,
     status: PStatus,
+    /// the token was allowed (listed, or covered by a default) when the contract accepted the send
+    payable_at_send: bool,
+    sent_step: usize,
 }
 
 #[derive(Clone, Debug, Default, PartialEq)]
@@ -93,6 +96,8 @@ pub struct WorldD {
     rebooked: std::collections::BTreeSet<(String, String)>,
     /// governance address named at instantiation
     cfg_gov: String,
+    /// step of the latest "deployed with a pre-allow-list version" rewrite
+    last_old_layout_step: Option<usize>,
 }
 
 fn ack_ok() -> Binary {
@@ -606,6 +611,15 @@ impl WorldD {
                     let (denom, amount, sender) = p.map(|p| (p.denom, p.amount.u128(), p.sender)).unwrap_or_default();
                     let l = self.ledger.entry((channel_id.clone(), denom.clone())).or_default();
                     l.sent = l.sent.saturating_add(amount);
+                    let payable_at_send = match denom.strip_prefix("cw20:") {
+                        None => true,
+                        Some(tok) => self
+                            .obs
+                            .as_ref()
+                            .map(|o| o.snap.default_gas_limit.is_some() || o.snap.allowed.iter().any(|a| a.0 == tok))
+                            .unwrap_or(false),
+                    };
+                    let sent_step = self.step_idx;
                     self.packets.push(SentPacket {
                         desc: PacketDesc {
                             data: data.clone(),
@@ -621,6 +635,8 @@ impl WorldD {
                         amount,
                         sender,
                         status: PStatus::InFlight,
+                        payable_at_send,
+                        sent_step,
                     });
                 }
             }
@@ -889,7 +905,7 @@ impl WorldD {
             if !covered {
                 return;
             }
-            let payable = match denom.strip_prefix("cw20:") {
+            let payable_now = match denom.strip_prefix("cw20:") {
                 None => true,
                 Some(tok) => self
                     .obs
@@ -897,7 +913,13 @@ impl WorldD {
                     .map(|o| o.snap.default_gas_limit.is_some() || o.snap.allowed.iter().any(|a| a.0 == tok))
                     .unwrap_or(false),
             };
-            if payable {
+            // a token that was allowed when the send was accepted stays allowed (the list only loosens) — unless the
+            // scenario has since rewritten the contract into the layout of a version that had no allow list
+            let was_payable = pkt
+                .as_ref()
+                .map(|p| p.payable_at_send && self.last_old_layout_step.map(|s| s < p.sent_step).unwrap_or(true))
+                .unwrap_or(false);
+            if payable_now || was_payable {
                 self.viol(
                     out,
                     "C12",
@@ -1328,6 +1350,7 @@ impl World for WorldD {
             in_seq: 0,
             rebooked: Default::default(),
             cfg_gov: init["gov_contract"].as_str().unwrap_or("").to_string(),
+            last_old_layout_step: None,
         };
         if w.ics_ok {
             w.meter.flag("instantiated");
@@ -1437,6 +1460,7 @@ impl World for WorldD {
                         let obs = self.obs.clone();
                         let gov = obs.as_ref().and_then(|o| o.snap.admin.clone()).unwrap_or(self.users[0].clone());
                         v1_gov = Some(gov.clone());
+                        self.last_old_layout_step = Some(self.step_idx);
                         let dt = obs.as_ref().map(|o| o.snap.default_timeout).unwrap_or(100);
                         let mut ops: Vec<(Binary, Option<Binary>)> = vec![];
                         let cfgk = rawkeys::item_key("ics20_config");
